@@ -56,8 +56,8 @@ Section Walk.
   Qed.
 
   Ltac step :=
-    cbn [wexec ceval reval ieval get_local set_local as_ptr as_nat body_of wf_uni wf_first wf_next gen_walkfns
-         f_vtbl f_slot f_stride f_dispatch andb val_eqb].
+    cbn [wexec ceval reval ieval get_local set_local as_ptr as_nat body_of wf_uni wf_first wf_next wf_vptr gen_walkfns
+         vptr_eval gen_vptr f_vtbl f_slot f_stride f_dispatch andb val_eqb].
 
   Lemma rd_read a : rd img a = to_opt (read img a).
   Proof. unfold rd. destruct (read img a); reflexivity. Qed.
@@ -71,13 +71,13 @@ Section Walk.
     - destruct acts as [|a acts]; [destruct v; reflexivity|].
       cbn [walk resolve_uni]. destruct v.
       + destruct a as [vp|]; [|reflexivity]. cbn [andb].
-        unfold gen_walkfns at 1. cbn [body_of wf_uni]. unfold gen_resolve_uni.
+        change (body_of gen_walkfns FUni) with gen_resolve_uni. unfold gen_resolve_uni.
         assert (E1 : nth_error ss 0 = Some (nth 0 ss 0)) by (apply nth_error_nth_lt; lia).
         pose proof (static_slot 0 ltac:(lia) ltac:(lia)) as S0.
         destruct statics as [[sl st]|]; destruct checks; destruct (hd false kinds);
           repeat (progress (step; rewrite ?E1, ?S0, ?Nat.eqb_refl));
           rewrite rd_read, HC; destruct (read img _); reflexivity.
-      + cbn [andb]. unfold gen_walkfns at 1. cbn [body_of wf_uni]. unfold gen_resolve_uni. step.
+      + cbn [andb]. change (body_of gen_walkfns FUni) with gen_resolve_uni. unfold gen_resolve_uni. step.
         destruct a; apply IH.
   Qed.
 
@@ -91,7 +91,7 @@ Section Walk.
     - destruct acts as [|a acts]; [destruct v; reflexivity|].
       cbn [walk resolve_multi_next]. destruct v.
       + destruct a as [vp|]; [|reflexivity]. cbn [andb].
-        unfold gen_walkfns at 1. cbn [body_of wf_next]. unfold gen_resolve_multi_next.
+        change (body_of gen_walkfns FMultiNext) with gen_resolve_multi_next. unfold gen_resolve_multi_next.
         assert (E1 : nth_error ss va = Some (nth va ss 0)) by (apply nth_error_nth_lt; lia).
         assert (E2 : nth_error ss (arity + va - 1) = Some (nth (arity + va - 1) ss 0)) by (apply nth_error_nth_lt; lia).
         pose proof (static_slot va ltac:(lia) ltac:(lia)) as S1.
@@ -107,7 +107,7 @@ Section Walk.
           all: try (rewrite Nat2Z.inj_mul; apply IH; lia).
           all: rewrite rd_read, ?HC, Nat2Z.inj_mul.
           all: match goal with |- context [read img ?a] => destruct (read img a) end; reflexivity.
-      + cbn [andb]. unfold gen_walkfns at 1. cbn [body_of wf_next]. unfold gen_resolve_multi_next. step.
+      + cbn [andb]. change (body_of gen_walkfns FMultiNext) with gen_resolve_multi_next. unfold gen_resolve_multi_next. step.
         destruct a; apply IH; assumption.
   Qed.
 
@@ -121,7 +121,7 @@ Section Walk.
     - destruct acts as [|a acts]; [destruct v; reflexivity|].
       cbn [walk resolve_multi_first]. destruct v.
       + destruct a as [vp|]; [|reflexivity]. cbn [andb].
-        unfold gen_walkfns at 1. cbn [body_of wf_first]. unfold gen_resolve_multi_first.
+        change (body_of gen_walkfns FMultiFirst) with gen_resolve_multi_first. unfold gen_resolve_multi_first.
         assert (E1 : nth_error ss 0 = Some (nth 0 ss 0)) by (apply nth_error_nth_lt; lia).
         pose proof (static_slot 0 ltac:(lia) ltac:(lia)) as S0.
         pose proof (src_next C HC Hss) as Hnext.
@@ -131,7 +131,7 @@ Section Walk.
           (match goal with |- context [read img ?a] => destruct (read img a) as [w|e] end; cbn [to_opt]; [|reflexivity]);
           (destruct w; step; try reflexivity);
           apply Hnext; lia.
-      + cbn [andb]. unfold gen_walkfns at 1. cbn [body_of wf_first]. unfold gen_resolve_multi_first. step.
+      + cbn [andb]. change (body_of gen_walkfns FMultiFirst) with gen_resolve_multi_first. unfold gen_resolve_multi_first. step.
         destruct a; apply IH.
   Qed.
 End Walk.
